@@ -621,6 +621,10 @@ def run(tier, args):
         "calls on a detached emitter": stats["detached_calls"],
         "pass-2 programs compared (Builder/Compiler fed only failing lines)": stats["pass2_programs_compared"],
         "handler-routing probes": route_n,
+        "failing label/section/align/embed calls with the one-shot state armed": stats["api_lbl.oneshot.armed-failing-calls"],
+        "one-shot components judged after such calls (a successful call of the kind clears them)": stats["api_lbl.oneshot.components-judged"],
+        "failing bind() with the one-shot state armed": stats["api_lbl.oneshot.armed.bind"],
+        "failing misuse-script calls with the one-shot state armed": stats["api_script.oneshot.armed-failing-calls"],
         "settings events after attach": stats["settings_events"],
         "calls after settings events": stats["calls_after_settings_events"],
         "x86-32 REX requests refused by the Assembler after settings events": stats["rex32_refused_after_settings_events"],
@@ -658,6 +662,7 @@ def run(tier, args):
         "jobs": len(jobs),
     })
     chk.assumptions += [
+        "one-shot state after a failing NON-instruction call: demanded is what the code does on success - a component (inline comment / options / extra register) that a successful call of the same kind clears on a fresh emitter of the same type must be cleared by the failing call too; the reference masks are listed among the distinct cases (lbl:oneshot-reference:...)",
         "without strict validation only operand KINDS are kept fixed (register and address-register types included); successes there are not judged (the validator is what decides 'correct instruction'), failures and memory safety are",
         "a Compiler may record an instruction whose virtual-range register id names no virtual register (the id is resolved by the register allocator): then finalize() of a function holding only that instruction must fail and report exactly once; an existing virtual register used with another register type is only watched for undefined behaviour",
         "handler routing model: the emitter's own handler if one is set, else the handler of the CodeHolder it is attached to, else nobody (documented at BaseEmitter::error_handler())",
